@@ -123,7 +123,18 @@ def step (ds : DSt) (line : String) : DSt × Driver.Verdict :=
         let ms := match mr with
           | none => "none"
           | some v => showValue v
-        if mc != (comp == 1) then (ds, .diff s!"HasCompleted={comp}, model {mc}")
+        -- the property on the implementation's own answer, before any comparison with the model: a reported
+        -- consensus value must be the recorded value of every non-excluded member (nil ≡ empty)
+        let implC := gets kv "consensus"
+        let norm := fun (x : String) => if x == "_" then "e" else x
+        let implDisagrees := implC != "none" && ds.st.errs == 0 &&
+          (participants i excl).any fun p =>
+            match latest ds.st.notes i.id p with
+            | some d => norm (showValue d.vote.value) != norm implC
+            | none => true
+        if implDisagrees then
+          (ds, .oracle s!"SIM-ORACLE-UNSOUND HasReachedConsensus reported {implC} for instance {k} although the recorded decisions of the participants differ")
+        else if mc != (comp == 1) then (ds, .diff s!"HasCompleted={comp}, model {mc}")
         else if ms != gets kv "consensus" then (ds, .diff s!"HasReachedConsensus={gets kv "consensus"}, model {ms}")
         else
           -- executable agreement statement: consensus reported ⇒ every non-excluded member's recorded
